@@ -91,6 +91,24 @@ def _sets(rep):
     rep.functions.append(func_source_info(REL, "SymmetryAnalyzer._get_wyckoff_sets"))
 
 
+def _setsproof(rep):
+    """set formation proved for every number of atoms and orbits: loop invariants over a heap of WyckoffSet objects"""
+    import collections
+    from contracts import wyckoff_sets as WSC
+    from props._util import run_fv
+    m = contexts.symmetry_ctx()
+    old = {k: m.globals.get(k) for k in ("WYCKOFF_SETS", "WyckoffSet", "OrderedDict")}
+    m.globals["WYCKOFF_SETS"] = WSC.TablesShim()
+    m.globals["WyckoffSet"] = WSC.wset_factory
+    m.globals["OrderedDict"] = WSC.SetsMap
+    try:
+        run_fv(rep, "setsproof.", m, "SymmetryAnalyzer._get_wyckoff_sets", WSC.mk, WSC.post, loops=WSC.LOOPS,
+               builtins_={"str": lambda x: x, "attrgetter": lambda *a: None})
+    finally:
+        for k, v in old.items():
+            m.globals[k] = v
+
+
 def _maps(rep):
     from props import C12
     C12._maps(rep)
@@ -102,9 +120,9 @@ def run():
     rep.assumptions = [
         "A-SPG: crystallographic_orbits are the orbits of the detected group; wyckoffs are the ITA letters in the Hall setting; mappings are homogeneous",
         "orbit closure under independently obtained operations = A-SPG + table lemma 'normalizer maps the group onto itself' (so orbits are mapped to orbits)",
-        "set formation is checked by exhaustive execution for up to 5 atoms (bounded, labelled as such), the index maps and the letter relabelling are proved for all sizes",
+        "set formation (_get_wyckoff_sets, return_parameters=False) is proved for every number of atoms and orbits under A-NP(np.unique) and A-SPG(letters/elements constant on orbits); the exhaustive execution for up to 5 atoms is kept as a bounded cross-check of the executor against the same contract",
     ]
-    sections_parallel(rep, [("sets", _sets), ("maps", _maps)])
+    sections_parallel(rep, [("sets", _sets), ("maps", _maps), ("setsproof", _setsproof)])
     # letters after the normalizer: tabulated permutation maps Wyckoff positions onto Wyckoff positions (exhaustive) and the code applies that permutation
     nz = tabvc.run_family(tabvc.normalizer_obligations, list(range(1, 231)))
     rep.obligations.extend(o for o in nz if o.id.split("[")[0] in ("nz.perm", "nz.perm-wf", "nz.normalises"))
